@@ -152,6 +152,28 @@ def check(ctx, run):
                 got = valid(m2)
                 run.ob("R2", "guard byte %d changed to %d is detected" % (pos, newv), rd.site, got == 0, witness={"folded": got},
                        what="" if got == 0 else "an overrun that changes only guard byte %d goes unreported" % pos)
+        # several guard bytes changed at once (an overrun writes a run of bytes): differences that would cancel in a
+        # combined test (same bit flips, flips whose xor or sum is zero) must still be detected
+        badm, nm_ = None, 0
+        MASKS = (1, 2, 3, 0x20, 0x40, 0x7f, 0x80, 0xff)
+        for npos in range(2, n_guard + 1):
+            for poss in itertools.combinations(range(n_guard), npos):
+                combos = list(itertools.product(MASKS, repeat=npos)) if npos <= 3 else [(m_,) * npos for m_ in MASKS]
+                for masks in combos:
+                    for mode in ("xor", "add"):
+                        m2 = dict(mem)
+                        for i_, (pos, mk_) in enumerate(zip(poss, masks)):
+                            old_ = mem["G[%d]" % pos] & 0xff
+                            new_ = (old_ ^ mk_) if mode == "xor" else ((old_ + (mk_ if i_ % 2 == 0 else -mk_)) & 0xff)
+                            m2["G[%d]" % pos] = new_ - 256 if new_ > 127 else new_
+                        if all(m2[k_] == mem[k_] for k_ in mem):
+                            continue
+                        nm_ += 1
+                        got = valid(m2)
+                        if got != 0 and badm is None:
+                            badm = "guard bytes %s changed to %s validate (%s)" % ([mem["G[%d]" % p_] for p_ in poss], [m2["G[%d]" % p_] for p_ in poss], got)
+        run.ob("R2", "guard bytes changed at several positions at once (%d combinations of bit flips / offsets that cancel under xor or addition) are detected" % nm_, rd.site, badm is None, witness=badm or "%d combinations" % nm_,
+               what="" if badm is None else "an overrun that rewrites several guard bytes goes unreported: " + badm)
     # where writer and reader are applied: folded over a heap model with a record describing block 70000 of 13 bytes
     NODE, BLK, SZ = 6000, 70000, 13
     for f in prog.functions.values():
